@@ -54,6 +54,10 @@ CHECKS = {
         technique='metamorphic runtime monitor: each text is re-rendered by a layout-only printer (AST identity checked per pair) and the real lint()/names_at answers of both layouts are compared through identifier-token ordinals',
         text='For every pair of AST-identical layouts (ast.unparse normal form and random re-layouts) of real files and generated programs, diagnostics and visible names/alternatives at corresponding reads must be equal.',
         design='3/C13', engine=''),
+    'C17': dict(
+        technique='runtime monitor across processes: the same requests are evaluated twice in one process and in fresh child interpreters that differ in PYTHONHASHSEED and in the amount of garbage allocated before importing supp (shifting object addresses); canonical JSON compared byte-wise, plus a source-order predicate on alternative lists',
+        text='Every selected request (answers with more than one alternative / member) must give byte-identical results in all child processes and passes, and every list of alternative definitions must be in source order.',
+        design='3/C17', engine=''),
     'C16': dict(
         technique='controlled-scheduler runtime monitor: the real Environment code runs on real threads under a line-granularity cooperative scheduler (sys.settrace) with fake Popen/Client counting launches; stateless DFS over schedules with sleep sets and preemption bounds, random/PCT schedules; plus real-subprocess runs for close/disconnect/launch failure',
         text='Every explored interleaving of prepare()/call/close() scripts of up to three threads must launch exactly one server per session, raise no handshake exception, answer every call and not deadlock; real child processes must exit after close() and after the client end disappears. Exhaustive for 1- and 2-client scripts (up to reordering of independent steps).',
